@@ -813,6 +813,38 @@ Example bicg_biorthogonality_nonvacuous : LinOp 2 (@sp_mul AQ kq_s) /\ LinOp 2 (
 Proof. split; [exact (sp_mul_LinOp AQ_RingLaws kq_s 2 kq_s_wf eq_refl eq_refl)|].
   split; [exact (sp_tmul_LinOp AQ_RingLaws kq_s 2 kq_s_wf eq_refl eq_refl) | exact (sp_mul_AdjOp AQ_RingLaws kq_s 2 kq_s_wf eq_refl eq_refl)]. Qed.
 
+(* the solver as a whole, ANY square matrix: whenever at least one iteration was performed (Ok from the loop, or Err with a budget >= 1) the final
+   residual g_t g = b - A x is orthogonal to the initial residual b - A x0 (which is the initial shadow residual) *)
+Theorem bicg_final_residual_orth_initial : forall (A : SArith), FieldLaws (SA A) ->
+  forall n (mulA mulAT : list (T (SA A)) -> res (list (T (SA A)))), LinOp n mulA -> LinOp n mulAT -> AdjOp n mulA mulAT ->
+  forall itol (b x0 : list (T (SA A))) max tol res x g,
+  solve_bicg mulA mulAT n n itol b x0 max tol = Ok (res, x, g) ->
+  g_exit g = 1 \/ (g_exit g = 2 /\ 1 <= max) ->
+  exists ax0, mulA x0 = Ok ax0 /\ dot_raw (g_t g) (zipw sub b ax0) = zero.
+Proof. intros A FL n mulA mulAT LO LOT ADJ itol b x0 max tol res x g. exact (solve_bicg_residual_orth_initial FL n mulA mulAT LO LOT ADJ itol b x0 max tol res x g). Qed.
+Check bicg_final_residual_orth_initial : forall (A : SArith), FieldLaws (SA A) ->
+  forall n (mulA mulAT : list (T (SA A)) -> res (list (T (SA A)))), LinOp n mulA -> LinOp n mulAT -> AdjOp n mulA mulAT ->
+  forall itol (b x0 : list (T (SA A))) max tol res x g,
+  solve_bicg mulA mulAT n n itol b x0 max tol = Ok (res, x, g) ->
+  g_exit g = 1 \/ (g_exit g = 2 /\ 1 <= max) ->
+  exists ax0, mulA x0 = Ok ax0 /\ dot_raw (g_t g) (zipw sub b ax0) = zero.
+Print Assumptions bicg_final_residual_orth_initial.
+
+Theorem bicg_final_residual_orth_initial_sparse : forall (A : SArith) (FL : FieldLaws (SA A)) (s : sparse (SA A)) itol (b x0 : list (T (SA A))) max tol res x g,
+  wfS s ->
+  run_sparse (BiCG itol) s b x0 max tol = Ok (res, x, g) ->
+  g_exit g = 1 \/ (g_exit g = 2 /\ 1 <= max) ->
+  dot_raw (zipw sub b (sp_apply s x)) (zipw sub b (sp_apply s x0)) = zero.
+Proof. intros A FL s itol b x0 max tol res x g. exact (bicg_final_residual_orth_initial_sparse FL s itol b x0 max tol res x g). Qed.
+Check bicg_final_residual_orth_initial_sparse : forall (A : SArith) (FL : FieldLaws (SA A)) (s : sparse (SA A)) itol (b x0 : list (T (SA A))) max tol res x g,
+  wfS s ->
+  run_sparse (BiCG itol) s b x0 max tol = Ok (res, x, g) ->
+  g_exit g = 1 \/ (g_exit g = 2 /\ 1 <= max) ->
+  dot_raw (zipw sub b (sp_apply s x)) (zipw sub b (sp_apply s x0)) = zero.
+Print Assumptions bicg_final_residual_orth_initial_sparse.
+Example bicg_final_residual_orth_initial_sparse_nonvacuous : wfS exq_s /\ exists x g, @run_sparse SAQ (BiCG 1) exq_s [q 1 1; q 2 1] [q 2 1; q 1 1] 10 (q 1 1000) = Ok (IOk 2, x, g).
+Proof. split; [exact exq_s_wf|]. apply exq_run_sparse_ok. intros itol H. injection H as <-. now left. Qed.
+
 (* BREAKDOWN OR TERMINATION: a run that reaches iteration i >= 2 without a panic has divided by <r_{i-2}, rr_{i-2}>; bi-orthogonal pairs with
    nonzero pairings are at most n (biorth_bound); hence in exact arithmetic, for EVERY square matrix, b, x0, tol: solve_bicg either divides by
    zero (a Panic of the model -- exactly the breakdown for which the code has no test and f64 produces NaN) or answers Ok within n+1
